@@ -36,6 +36,49 @@ fn main() {
         println!("REPLAY of {} seed={} tier={} shard={} event={}", prop, seed, tier.name(), replay.unwrap().0, replay.unwrap().1);
         println!("recorded: {}", v["detail"]);
     }
+    // optional flags (used by the auxiliary flavours; parameters by argv because Miri isolates the environment)
+    let mut budget_div: u64 = 1;
+    let mut one_shard: Option<u32> = None;
+    let mut evidence_name: Option<String> = std::env::var("VERIF_EVIDENCE_NAME").ok();
+    let mut skip_selftest = false;
+    let mut no_git = false;
+    let mut flavour_arg: Option<String> = None;
+    let mut seed_arg: Option<u64> = None;
+    {
+        let mut i = 3;
+        while i < args.len() {
+            match args[i].as_str() {
+                "--budget-div" => {
+                    budget_div = args[i + 1].parse().unwrap();
+                    i += 1;
+                }
+                "--one-shard" => {
+                    one_shard = Some(args[i + 1].parse().unwrap());
+                    i += 1;
+                }
+                "--evidence-name" => {
+                    evidence_name = Some(args[i + 1].clone());
+                    i += 1;
+                }
+                "--flavour" => {
+                    flavour_arg = Some(args[i + 1].clone());
+                    i += 1;
+                }
+                "--seed" => {
+                    seed_arg = Some(args[i + 1].parse::<i64>().unwrap() as u64);
+                    i += 1;
+                }
+                "--skip-selftest" => skip_selftest = true,
+                "--no-git" => no_git = true,
+                "--replay" => i += 1,
+                _ => {}
+            }
+            i += 1;
+        }
+    }
+    if let Some(sd) = seed_arg {
+        seed = sd;
+    }
     let meta = match props::meta(&prop) {
         Some(m) => m,
         None => {
@@ -47,24 +90,26 @@ fn main() {
         .ok()
         .and_then(|s| s.parse::<u64>().ok())
         .unwrap_or(if tier == Tier::Thorough { meta.thorough_scale } else { 1 });
-    let flavour = std::env::var("VERIF_FLAVOUR").unwrap_or_else(|_| "checked".into());
-    let cfg = Cfg { prop: prop.clone(), tier, seed, scale, verif_dir: verif_dir.clone(), repo_dir: repo_dir.clone(), replay, flavour: flavour.clone() };
+    let flavour = flavour_arg.unwrap_or_else(|| std::env::var("VERIF_FLAVOUR").unwrap_or_else(|_| "checked".into()));
+    let cfg = Cfg { prop: prop.clone(), tier, seed, scale, verif_dir: verif_dir.clone(), repo_dir: repo_dir.clone(), replay, flavour: flavour.clone(), budget_div };
     let (known_open, known_doc) = load_known_open(&verif_dir);
     install_hook();
     let t0 = Instant::now();
 
     // model self-tests (a failure means the machinery is wrong: inconclusive, never a violation)
-    match hfverif::model::cal::self_test() {
-        Ok(_) => {}
-        Err(e) => {
-            println!("INCONCLUSIVE property={} calendar model self-test failed: {}", prop, e);
-            std::process::exit(2);
+    if !skip_selftest {
+        match hfverif::model::cal::self_test() {
+            Ok(_) => {}
+            Err(e) => {
+                println!("INCONCLUSIVE property={} calendar model self-test failed: {}", prop, e);
+                std::process::exit(2);
+            }
         }
     }
 
     // watchdog: generous wall-clock limit; its firing is inconclusive, not a violation
     let wd_secs: u64 = std::env::var("VERIF_WATCHDOG_S").ok().and_then(|s| s.parse().ok()).unwrap_or(if tier == Tier::Thorough { 4 * 3600 } else { 1500 });
-    {
+    if one_shard.is_none() {
         let prop = prop.clone();
         std::thread::spawn(move || {
             std::thread::sleep(std::time::Duration::from_secs(wd_secs));
@@ -73,12 +118,22 @@ fn main() {
         });
     }
 
-    let shards: Vec<u32> = match replay {
-        Some((s, _)) => vec![s],
-        None => (0..NSHARDS).collect(),
+    let shards: Vec<u32> = match (replay, one_shard) {
+        (Some((s, _)), _) => vec![s],
+        (None, Some(k)) => vec![k],
+        (None, None) => (0..NSHARDS).collect(),
     };
+    let mut total = Rep::new(999, None, known_open.clone());
+    let mut panics = 0u64;
     let mut handles = vec![];
-    for sh in shards {
+    if one_shard.is_some() && replay.is_none() {
+        // single shard in the main thread (Miri / valgrind runs)
+        let mut rep = Rep::new(shards[0], None, known_open.clone());
+        props::run(&prop, &cfg, &mut rep);
+        panics += PANICS_CAUGHT.with(|c| c.get());
+        total.merge(rep);
+    }
+    for sh in if one_shard.is_some() && replay.is_none() { vec![] } else { shards } {
         let cfg = cfg.clone();
         let ko = known_open.clone();
         let prop = prop.clone();
@@ -94,8 +149,6 @@ fn main() {
                 .unwrap(),
         );
     }
-    let mut total = Rep::new(999, None, known_open.clone());
-    let mut panics = 0u64;
     for h in handles {
         match h.join() {
             Ok((rep, p)) => {
@@ -121,7 +174,7 @@ fn main() {
     }
 
     // ---- verdict
-    let repo_rev = git_rev(&repo_dir);
+    let repo_rev = if no_git { String::new() } else { git_rev(&repo_dir) };
     let mut nviol = 0u64;
     let mut viol_json = vec![];
     let replay_dir = verif_dir.join("replays");
@@ -202,7 +255,7 @@ fn main() {
         "wall_s": wall,
         "violations": nviol as i64,
     });
-    let evname = std::env::var("VERIF_EVIDENCE_NAME").unwrap_or_else(|_| format!("{}.json", prop));
+    let evname = evidence_name.unwrap_or_else(|| format!("{}.json", prop));
     let evdir = verif_dir.join("evidence");
     let _ = std::fs::create_dir_all(&evdir);
     std::fs::write(evdir.join(evname), serde_json::to_string_pretty(&ev).unwrap()).expect("write evidence");
@@ -214,7 +267,7 @@ fn main() {
         println!("FAIL property={} violations={} distinct_signatures={} evaluations={} wall={:.1}s", prop, nviol, lines.len(), total.evals, wall);
         std::process::exit(1);
     }
-    if !missing.is_empty() {
+    if !missing.is_empty() && one_shard.is_none() && budget_div == 1 {
         println!("INCONCLUSIVE property={} mandatory classes never observed: {:?}", prop, missing);
         std::process::exit(2);
     }
